@@ -202,6 +202,14 @@ fn sweep_l0(rep: &Reporter, args: &Args) {
                 }
             }
         } else {
+            // every /24 x {first, seeded host}
+            for hi24 in (shard as u32..(1 << 24)).step_by(nshards) {
+                for low in [0u32, rng.below(256) as u32] {
+                    let a = (hi24 << 8) | low;
+                    s.check(IpAddr::V4(Ipv4Addr::from(a)), "v4");
+                    s.check(IpAddr::V6(Ipv6Addr::from(0xffff_0000_0000u128 | a as u128)), "v4mapped");
+                }
+            }
             // every /16 x {first, last, seeded host}, every block boundary +-1
             for hi16 in (shard as u32..65536).step_by(nshards) {
                 for low in [0u32, 0xffff, rng.below(65536) as u32, 0x0100, 0x6300, 0x0200] {
